@@ -6,15 +6,30 @@ Driver of C08.  Abstract cases:
   hist <ids> <tok>…      a history; ids = "11,1,2" (the default tables it may request), tokens
                            g:<id> | w:<h>:<sequence> | a:<h1>:<h2> | c:<h1>:<h2>:<float64 bits, decimal> | j:<h> | o:<h>
                          handle k = result of step k.
-  conc <id:s1,s2,…>…     one thread per field re-weights ITS default table with s1, s2, … in turn, concurrently.
+  conc <id:s1,s2,…|id:@n>…   one goroutine per field: a writer re-weights ITS default table with s1, s2, … in turn;
+                         a reader (id:@n) requests and reads default table id n times meanwhile.
 
-The harness resets the named default tables to weight 1, REPORTS them, then runs the steps and shows the
-result of every step.  The heap model starts from the reported tables (correspondence: must agree on
-every history, linear or not); the value-semantics spec starts from the pristine tables and is the judge.
+The harness snapshots each named default table at its first use in the process (prefix F) or restores that
+snapshot (prefix R), REPORTS it, then runs the steps and shows the result of every step.
+
+corr  : implementation trace == heap model started from the reported tables — on EVERY history, linear or not.
+judge : (a) every reported start table has uniform weight 1 and is the regenerated table as a map (C06 ties
+        the regenerated tables to the NCBI codes) — "a freshly requested default table is pristine", judged on
+        what poly itself built; (b) implementation trace == value-semantics spec from those tables.
+kf    : a judged failure carries a known-finding tag ONLY IF the start was pristine, the history is not Linear
+        AND the implementation's trace is exactly the heap model's (the recorded defect IS the heap model's
+        sharing).  The id is chosen by the region the first linearity break exposes: a default table
+        (C08-alias-default) or a table built by add / compromise / json (C08-receiver-mutated).
+        Anything else — unclean start, a failure on a Linear history, a non-Linear history on which the code
+        also disagrees with the heap model — is an ordinary FAIL.
+nan   : from the first `compromise` step whose operand has an amino acid of total weight 0 onwards the result
+        contains int(NaN), which Go leaves to the platform: from there on traces are compared up to the code
+        (letters, triplets, start/stop codons) only.
+ood   : a coding sequence with a non-ASCII character is outside the property's domain (ASSUMPTIONS): not judged.
 -/
 namespace PolyVerif.Driver.C08
 open PolyVerif PolyVerif.Codon PolyVerif.CodonTables
-open PolyVerif.Spec (ValueTables.Linear ValueTables.runValue)
+open PolyVerif.Spec
 
 def floatOfBits (s : String) : Float := Float.ofBits (UInt64.ofNat (natOfStr s))
 
@@ -46,24 +61,56 @@ def showObs : Obs → String
   | .panic => "panic"
   | .fault => "fault"
 
-/-- implementation's step output, parsed (tables compared as values, not as text) -/
+/-- implementation's step output, parsed (tables compared as values, not as text); anything unexpected is `fault` -/
 def parseObs (s : String) : Obs :=
   if s == "err" then .err else if s == "panic" then .panic
   else if s.startsWith "T" then .table (parseTable (s.drop 1).toString) else .fault
 
-def pristine (t : Table) : Table := Spec.ValueTables.mapWeights (fun _ _ _ => 1) t
+/-- reported start table: `F…` (fresh in this process) or `R…` (snapshot restored) -/
+def parseStart (s : String) : Option Table :=
+  if s.startsWith "F" || s.startsWith "R" then some (parseTable (s.drop 1).toString) else none
+
+def uniform1 (t : Table) : Bool := t.aminoAcids.all fun a => a.codons.all fun c => c.weight == 1
 
 def genTableOf (id : Nat) : Table := (genDefaults.lookup id).getD zeroTable
 
-/-- the reported default table is the regenerated one (as a map: the amino-acid order is a Go map's) with weight 1 everywhere -/
-def isPristine (id : Nat) (t : Table) : Bool := canonTable t == canonTable (genTableOf id)
-
-def firstDiff (a b : List Obs) : Nat := ((a.zip b).takeWhile fun p => p.1 == p.2).length
+/-- the reported default table is the regenerated one as a map (the amino-acid order is a Go map's) and has weight 1 everywhere -/
+def isPristine (id : Nat) (t : Table) : Bool := uniform1 t && canonTable t == canonTable (genTableOf id)
 
 def cmpFloat : Table → Table → Float → Outcome Table := compromise floatArith
 
-def opTag : Op Float → String
-  | .get _ => "g" | .reweight _ _ => "w" | .add _ _ => "a" | .compromise _ _ _ => "c" | .json _ => "j" | .observe _ => "o"
+def asciiStr (s : Str) : Bool := s.all fun c => c.val ≤ 127
+
+/-- index of the first compromise step one of whose operands (in the value run) has an amino acid of total weight 0 -/
+def firstNaN (defs : List (Nat × Table)) (hist : List (Op Float)) : Nat :=
+  let rec go (st : ValueTables.VState) (i : Nat) : List (Op Float) → Nat
+    | [] => i
+    | op :: rest =>
+      let bad := match op with
+        | .compromise h1 h2 _ => match st.handles[h1]?, st.handles[h2]? with
+          | some t1, some t2 => !(ValueTables.posTotals t1 && ValueTables.posTotals t2)
+          | _, _ => false
+        | _ => false
+      if bad then i else go (ValueTables.vstep addTable cmpFloat defs st op) (i + 1) rest
+  go { handles := [], trace := [] } 0 hist
+
+def obsEq (relaxed : Bool) (x y : Obs) : Bool :=
+  if !relaxed then x == y
+  else match x, y with
+    | .table a, .table b => ValueTables.codeOf a == ValueTables.codeOf b
+    | a, b => a == b
+
+/-- traces equal; from step `relaxFrom` on, tables are compared up to their code -/
+def eqTrace (relaxFrom : Nat) (a b : List Obs) : Bool :=
+  a.length == b.length && (a.zip b).zipIdx.all fun p => obsEq (p.2 ≥ relaxFrom) p.1.1 p.1.2
+
+def firstDiff (relaxFrom : Nat) (a b : List Obs) : Nat :=
+  ((a.zip b).zipIdx.takeWhile fun p => obsEq (p.2 ≥ relaxFrom) p.1.1 p.1.2).length
+
+def kfId (ndefs : Nat) (brk : List Nat) : String :=
+  match brk with
+  | r :: _ => if r < ndefs then "C08-alias-default" else "C08-receiver-mutated"
+  | [] => "none"
 
 def judgeHist (ids : String) (toks : List String) (out : List String) : Verdict :=
   let idl := parseIds ids
@@ -72,37 +119,48 @@ def judgeHist (ids : String) (toks : List String) (out : List String) : Verdict 
   | some hist =>
     match out with
     | "ok" :: vals =>
-      let reported := (idl.zip (vals.take idl.length)).map fun p => (p.1, parseTable p.2)
+      let starts := (vals.take idl.length).map parseStart
+      let reported := (idl.zip starts).map fun p => (p.1, p.2.getD zeroTable)
       let impl := (vals.drop idl.length).map parseObs
-      let shapeOk := vals.length == idl.length + hist.length
+      let shapeOk := vals.length == idl.length + hist.length && starts.all Option.isSome
+      -- (a) pristine start, judged on what poly built (the harness only snapshots / restores)
+      let cleanStart := shapeOk && reported.all fun p => isPristine p.1 p.2
+      let relax := firstNaN reported hist
       -- correspondence: heap model from the reported state
       let heapTrace := runHeap cmpFloat reported hist
-      let corr := shapeOk && impl == heapTrace
-      -- judge: value semantics from the pristine tables
-      let clean := reported.map fun p => (p.1, pristine p.2)
-      let cleanStart := reported.all fun p => p.2 == pristine p.2 && isPristine p.1 p.2
-      let valTrace := ValueTables.runValue addTable cmpFloat clean hist
-      let pass := shapeOk && cleanStart && impl == valTrace
-      let lin := ValueTables.Linear clean hist
+      let corr := shapeOk && eqTrace relax impl heapTrace
+      -- (b) value semantics from the same tables
+      let valTrace := ValueTables.runValue addTable cmpFloat reported hist
+      let valOk := shapeOk && eqTrace relax impl valTrace
+      let pass := cleanStart && valOk
+      let lin := ValueTables.Linear reported hist
+      let ascii := hist.all fun o => match o with | .reweight _ s => asciiStr s | _ => true
       let nrew := (hist.filter fun o => match o with | .reweight _ _ => true | _ => false).length
-      let cls := (if nrew == 0 then "triv:" else "") ++ "hist/" ++ (if lin then "linear" else "nonlinear")
-        ++ (if !lin || !cleanStart then "/kf:C08-alias-default" else "")
-        ++ (if !cleanStart then "/dirty-start" else "")
+      let known := !pass && cleanStart && !lin && corr
+      let cls := (if nrew == 0 then "triv:" else "") ++ (if ascii then "hist/" else "ood:non-ascii/hist/")
+        ++ (if lin then "linear" else "nonlinear")
+        ++ (if known then "/kf:" ++ kfId reported.length (ValueTables.breaks reported hist) else "")
+        ++ (if !cleanStart then "/start-not-pristine" else "")
+        ++ (if relax < hist.length then "/nan" else "")
         ++ "/len" ++ toString hist.length
         ++ (if hist.any fun o => match o with | .reweight _ s => s.length % 3 != 0 | _ => false then "/frame" else "")
       let d := if corr && pass then "" else
-        (if !corr then "heap model differs at step " ++ toString (firstDiff impl heapTrace) ++ ": " ++
-            ((heapTrace[firstDiff impl heapTrace]?).map showObs |>.getD "-") ++ " " else "") ++
-        (if !pass then "value spec differs at step " ++ toString (firstDiff impl valTrace) ++ ": " ++
-            ((valTrace[firstDiff impl valTrace]?).map showObs |>.getD "-") else "")
-      { corr, judge := some pass, cls, detail := d }
+        (if !cleanStart then "a reported default table is not the regenerated table with uniform weight 1; " else "") ++
+        (if !corr then "heap model differs at step " ++ toString (firstDiff relax impl heapTrace) ++ ": " ++
+            ((heapTrace[firstDiff relax impl heapTrace]?).map showObs |>.getD "-") ++ " " else "") ++
+        (if !valOk then "value spec differs at step " ++ toString (firstDiff relax impl valTrace) ++ ": " ++
+            ((valTrace[firstDiff relax impl valTrace]?).map showObs |>.getD "-") else "")
+      { corr, judge := if ascii then some pass else none, cls, detail := d }
     | st :: _ => { corr := false, judge := some false, cls := "hist/" ++ st, detail := "implementation did not complete the history" }
     | [] => { corr := false, judge := some false, cls := "hist/missing", detail := "no reply" }
 
-def parseThread (s : String) : Nat × List Str :=
+/-- a thread: (id, strings to re-weight with; `none` = reader) -/
+def parseThread (s : String) : Nat × Option (List Str) :=
   match s.splitOn ":" with
-  | id :: rest => (natOfStr id, ((":".intercalate rest).splitOn ",").map String.toList)
-  | [] => (0, [])
+  | id :: rest =>
+    let body := ":".intercalate rest
+    if body.startsWith "@" then (natOfStr id, none) else (natOfStr id, some ((body.splitOn ",").map String.toList))
+  | [] => (0, none)
 
 /-- thread's chain: re-weight handle `h` with the first string, then always the previous result -/
 def chainOps (h next : Nat) : List Str → List (Op Float) × Nat × Nat
@@ -110,10 +168,10 @@ def chainOps (h next : Nat) : List Str → List (Op Float) × Nat × Nat
   | s :: rest => let r := chainOps next (next + 1) rest; (Op.reweight h s :: r.1, r.2.1, r.2.2)
 
 /-- all chains one after the other; returns (ops, last handle of each thread) -/
-def allChains : List ((Nat × List Str) × Nat) → Nat → List (Op Float) × List Nat
+def allChains : List ((Nat × Option (List Str)) × Nat) → Nat → List (Op Float) × List Nat
   | [], _ => ([], [])
   | (th, i) :: rest, next =>
-    let r := chainOps i next th.2
+    let r := chainOps i next (th.2.getD [])
     let q := allChains rest r.2.2
     (r.1 ++ q.1, r.2.1 :: q.2)
 
@@ -122,34 +180,36 @@ def judgeConc (threads : List String) (out : List String) : Verdict :=
   let n := ths.length
   let distinct := decide (ths.map (·.1)).Nodup
   if !distinct then
-    -- control: same id in two threads is a data race by construction; not in the property's domain
+    -- control: two goroutines on the same id race by construction (known sharing); not in the property's domain
     { corr := true, judge := none, cls := "ctl:conc-same-id/" ++ (out.head?.getD "missing"), detail := "" }
   else
   match out with
   | "ok" :: vals =>
-    let reported := ((ths.map (·.1)).zip (vals.take n)).map fun p => (p.1, parseTable p.2)
+    let starts := (vals.take n).map parseStart
+    let reported := ((ths.map (·.1)).zip starts).map fun p => (p.1, p.2.getD zeroTable)
     let finals := ((vals.drop n).take n).map parseObs
     let afters := (vals.drop (2 * n)).map parseObs
-    let shapeOk := vals.length == 3 * n
-    -- heap model: the threads one after the other (Props/C08 `disjoint_commute`: every interleaving gives the same heap)
-    let hist : List (Op Float) := ths.flatMap fun th => [Op.get th.1]
-    let k := ths.length
-    -- handles 0..k-1 are the `get`s; then each thread's chain of re-weightings
-    let chains := allChains ths.zipIdx k
-    let full := hist ++ chains.1 ++ chains.2.map Op.observe ++ (ths.map fun th => Op.get th.1)
+    let shapeOk := vals.length == 3 * n && starts.all Option.isSome
+    -- heap model: the threads one after the other (Props/C08 `interleavings_agree`: every interleaving gives the same heap)
+    let gets : List (Op Float) := ths.map fun th => Op.get th.1
+    let chains := allChains ths.zipIdx n
+    let full := gets ++ chains.1 ++ chains.2.map Op.observe ++ gets
     let tr := runHeap cmpFloat reported full
-    let m := k + chains.1.length
+    let m := n + chains.1.length
     let modelFinals := (tr.drop m).take n
     let modelAfters := tr.drop (m + n)
     let corr := shapeOk && finals == modelFinals && afters == modelAfters
-    -- value spec: each thread's result depends on its own last argument only
-    let cleanStart := reported.all fun p => p.2 == pristine p.2 && isPristine p.1 p.2
+    -- value spec: a writer's result depends on its own last argument only; a reader always sees the pristine table
+    let cleanStart := shapeOk && reported.all fun p => isPristine p.1 p.2
     let want := (ths.zip reported).map fun p =>
-      Obs.table (match p.1.2.getLast? with
-        | some s => Spec.ValueTables.reweight (pristine p.2.2) s
-        | none => pristine p.2.2)
-    let pass := shapeOk && cleanStart && finals == want
-    { corr, judge := some pass, cls := "conc/threads" ++ toString n,
+      Obs.table (match p.1.2 with
+        | some ss => (match ss.getLast? with
+          | some s => ValueTables.reweight p.2.2 s
+          | none => p.2.2)
+        | none => p.2.2)
+    let pass := cleanStart && finals == want
+    let readers := (ths.filter fun th => th.2.isNone).length
+    { corr, judge := some pass, cls := "conc/threads" ++ toString n ++ "/readers" ++ toString readers ++ (if !cleanStart then "/start-not-pristine" else ""),
       detail := if corr && pass then "" else "model finals: " ++ " | ".intercalate (modelFinals.map showObs) }
   | st :: _ => { corr := false, judge := some false, cls := "conc/" ++ st, detail := "implementation did not complete (data race report / crash)" }
   | [] => { corr := false, judge := some false, cls := "conc/missing", detail := "no reply" }
